@@ -185,6 +185,12 @@ pub fn cases(prop: &str, tier: Tier, seed: u64) -> Vec<CaseDesc> {
             let mut bases: Vec<String> = crate::census::leb_specs(!q);
             bases.extend(g("tiny", 40, 500));
             bases.extend(g("full", 30, 500));
+            // every operator carries a row once (operator census): a row must not depend on the operator it sits on
+            // (no inserted instructions here: the census environment has identical unreferenced helper functions,
+            // which the function pairing cannot tell apart once only some of them received a marker)
+            for (i, b) in crate::census::op_census_specs().into_iter().enumerate() {
+                out.push(CaseDesc { spec: format!("dwarf:{}:{}:{}", 4 + (i % 2), ["f", "s"][i % 2], b), scenario: ["rt:emit;cfg=27", "rt:emit,gc;cfg=27"][i % 2].to_string() });
+            }
             bases.push("gcedge:active_data_root.wat".to_string());
             bases.push("gcedge:elem_funcref_expr_global_get.wat".to_string());
             let mut i = 0usize;
@@ -219,6 +225,7 @@ pub fn cases(prop: &str, tier: Tier, seed: u64) -> Vec<CaseDesc> {
                 let spec = format!("dwarf:{}:{}:{}", 4 + (i % 2), ["f", "s", "k"][i % 3], b);
                 out.push(CaseDesc { spec, scenario: format!("rt:emit,gc,probe{};cfg={}", if i % 4 == 3 { ",ins" } else { "" }, if i % 2 == 0 { 27 } else { 91 }) });
             }
+            out.extend(with_scenario(crate::census::op_census_specs(), "rt:emit,gc,probe;cfg=90"));
             // function entries with three- and four-byte size prefixes: bodies beyond 2^14, 2^20 and 2^21 bytes
             for s in ["lebb:2:6:20000", "lebb:1:4:1100000"] {
                 out.push(CaseDesc { spec: s.to_string(), scenario: "rt:emit,gc,probe;cfg=90".to_string() });
